@@ -712,4 +712,134 @@ theorem saJump_nan {k : Consts} {c : SACfg} {p t u1 u2 : Rat} {o : SAOracle} {si
          simp_all)
       | simp_all
 
+/-! ### long rejection streaks: the loops never give up while fuel and draws last -/
+
+theorem firstIn_streak {ok : Rat → Bool} {v : Rat} {rest : List Rat} (hv : ok v = true) :
+    ∀ (pre : List Rat) (fuel : Nat), (∀ d ∈ pre, ok d = false) → pre.length < fuel →
+      firstIn ok fuel (pre ++ v :: rest) = some (v, rest)
+  | [], 0, _, h => by simp at h
+  | [], f + 1, _, _ => by simp [firstIn, hv]
+  | d :: pre, 0, _, h => by simp at h
+  | d :: pre, f + 1, hp, h => by
+    have hd : ok d = false := hp d (by simp)
+    have ih := firstIn_streak (rest := rest) hv pre f (fun e he => hp e (List.mem_cons_of_mem _ he))
+      (by simpa using h)
+    simp [firstIn, hd, ih]
+
+theorem firstIn_all_rejected {ok : Rat → Bool} :
+    ∀ (ds : List Rat) (fuel : Nat), (∀ d ∈ ds, ok d = false) → firstIn ok fuel ds = none
+  | _, 0, _ => by simp [firstIn]
+  | [], _ + 1, _ => by simp [firstIn]
+  | d :: ds, f + 1, hp => by
+    have hd : ok d = false := hp d (by simp)
+    have ih := firstIn_all_rejected ds f (fun e he => hp e (List.mem_cons_of_mem _ he))
+    simp [firstIn, hd, ih]
+
+theorem firstIn_fuel_spent {ok : Rat → Bool} :
+    ∀ (pre : List Rat) (fuel : Nat) (rest : List Rat), (∀ d ∈ pre, ok d = false) →
+      fuel ≤ pre.length → firstIn ok fuel (pre ++ rest) = none
+  | _, 0, _, _, _ => by simp [firstIn]
+  | [], _ + 1, _, _, h => by simp at h
+  | d :: pre, f + 1, rest, hp, h => by
+    have hd : ok d = false := hp d (by simp)
+    have ih := firstIn_fuel_spent pre f rest (fun e he => hp e (List.mem_cons_of_mem _ he))
+      (by simpa using h)
+    simp [firstIn, hd, ih]
+
+theorem bdFirst_streak {b : DBox} {x0 : Int} {d : Rat} {rest : List Rat}
+    (hd : b.accepts x0 d = true) :
+    ∀ (pre : List Rat) (fuel : Nat), (∀ e ∈ pre, b.accepts x0 e = false) → pre.length < fuel →
+      bdFirst b x0 fuel (pre ++ d :: rest) = some (x0 + dstep b.succ d, rest)
+  | [], 0, _, h => by simp at h
+  | [], f + 1, _, _ => by simp [bdFirst, hd]
+  | e :: pre, 0, _, h => by simp at h
+  | e :: pre, f + 1, hp, h => by
+    have he : b.accepts x0 e = false := hp e (by simp)
+    have ih := bdFirst_streak (rest := rest) hd pre f (fun e' he' => hp e' (List.mem_cons_of_mem _ he'))
+      (by simpa using h)
+    simp [bdFirst, he, ih]
+
+theorem beFirst_streak {boxes : List Box} {c : List Rat} {rest : List (List Rat)}
+    (hc : allInTol boxes c = true) :
+    ∀ (pre : List (List Rat)) (fuel : Nat), (∀ e ∈ pre, allInTol boxes e = false) →
+      pre.length < fuel → beFirst boxes fuel (pre ++ c :: rest) = some (c, pre.length + 1)
+  | [], 0, _, h => by simp at h
+  | [], f + 1, _, _ => by simp [beFirst, hc]
+  | e :: pre, 0, _, h => by simp at h
+  | e :: pre, f + 1, hp, h => by
+    have he : allInTol boxes e = false := hp e (by simp)
+    have ih := beFirst_streak (rest := rest) hc pre f (fun e' he' => hp e' (List.mem_cons_of_mem _ he'))
+      (by simpa using h)
+    simp [beFirst, he, ih]
+
+/-- `bnLoop` on a stream that holds, for each parameter in turn, a streak of rejected values and
+    then an accepted one. -/
+theorem bnLoop_streaks {fuel : Nat} {rest : List Rat} :
+    ∀ {boxes : List Box} {ps : List (List Rat × Rat)},
+      List.Forall₂ (fun (b : Box) (p : List Rat × Rat) =>
+        (∀ d ∈ p.1, b.contains d = false) ∧ b.contains p.2 = true ∧ p.1.length < fuel) boxes ps →
+      bnLoop fuel boxes (streakStream ps rest) = some (ps.map Prod.snd, rest)
+  | [], [], _ => by simp [bnLoop, streakStream]
+  | b :: bs, (pre, v) :: ps, h => by
+    obtain ⟨⟨h1, h2, h3⟩, ht⟩ := List.forall₂_cons.mp h
+    simp only [bnLoop, streakStream, firstIn_streak h2 pre fuel h1 h3, bnLoop_streaks ht,
+      List.map_cons]
+
+theorem ndLoop_streaks {fuel : Nat} {rest : List Rat} :
+    ∀ {succ : List Bool} {x : List Rat} {ps : List (List Rat × Rat)},
+      x.length = succ.length →
+      List.Forall₂ (fun (s : Bool) (p : List Rat × Rat) =>
+        (∀ d ∈ p.1, ndOk s d = false) ∧ ndOk s p.2 = true ∧ p.1.length < fuel) succ ps →
+      ndLoop fuel succ x (streakStream ps rest) =
+        some (List.zipWith (fun (sx : Bool × Rat) (p : List Rat × Rat) => truncZ sx.2 + dstep sx.1 p.2)
+          (succ.zip x) ps, rest)
+  | [], x, [], _, _ => by simp [ndLoop, streakStream]
+  | s :: ss, [], _, hl, _ => by simp at hl
+  | s :: ss, x :: xs, (pre, v) :: ps, hl, h => by
+    obtain ⟨⟨h1, h2, h3⟩, ht⟩ := List.forall₂_cons.mp h
+    have hl' : xs.length = ss.length := by simpa using hl
+    simp only [ndLoop, streakStream, firstIn_streak h2 pre fuel h1 h3, ndLoop_streaks hl' ht,
+      List.zip_cons_cons, List.zipWith_cons_cons]
+
+theorem bdLoop_streaks {fuel : Nat} {rest : List Rat} :
+    ∀ {boxes : List DBox} {x : List Rat} {ps : List (List Rat × Rat)},
+      x.length = boxes.length →
+      List.Forall₂ (fun (bx : DBox × Rat) (p : List Rat × Rat) =>
+        (∀ d ∈ p.1, bx.1.accepts (truncZ bx.2) d = false) ∧ bx.1.accepts (truncZ bx.2) p.2 = true ∧
+          p.1.length < fuel) (boxes.zip x) ps →
+      bdLoop fuel boxes x (streakStream ps rest) =
+        some (List.zipWith (fun (bx : DBox × Rat) (p : List Rat × Rat) =>
+          truncZ bx.2 + dstep bx.1.succ p.2) (boxes.zip x) ps, rest)
+  | [], x, ps, _, h => by
+    simp only [List.zip_nil_left] at h
+    cases h
+    simp [bdLoop, streakStream]
+  | b :: bs, [], _, hl, _ => by simp at hl
+  | b :: bs, x :: xs, ps, hl, h => by
+    rw [List.zip_cons_cons] at h
+    cases h with
+    | cons hh ht =>
+      rename_i p ps'
+      obtain ⟨pre, v⟩ := p
+      obtain ⟨h1, h2, h3⟩ := hh
+      have hl' : xs.length = bs.length := by simpa using hl
+      simp only [bdLoop, streakStream, bdFirst_streak h2 pre fuel h1 h3, bdLoop_streaks hl' ht,
+        List.zip_cons_cons, List.zipWith_cons_cons]
+
+theorem angLoop_streaks {c : AngCfg} {fuel : Nat} {rest : List Rat} :
+    ∀ {x : List Rat} {ps : List (List Rat × Rat)},
+      List.Forall₂ (fun (_ : Rat) (p : List Rat × Rat) =>
+        (∀ d ∈ p.1, ¬ rabs d ≤ c.h) ∧ rabs p.2 ≤ c.h ∧ p.1.length < fuel) x ps →
+      angLoop c fuel x (streakStream ps rest) =
+        some (List.zipWith (fun (xi : Rat) (p : List Rat × Rat) => wrap c (p.2 + xi * c.invf) * c.f) x ps,
+          rest)
+  | [], [], _ => by simp [angLoop, streakStream]
+  | x :: xs, (pre, v) :: ps, h => by
+    obtain ⟨⟨h1, h2, h3⟩, ht⟩ := List.forall₂_cons.mp h
+    have h1' : ∀ d ∈ pre, (fun v => decide (rabs v ≤ c.h)) d = false := fun d hd => by
+      simpa using h1 d hd
+    have h2' : (fun v => decide (rabs v ≤ c.h)) v = true := by simpa using h2
+    simp only [angLoop, angOne, streakStream, firstIn_streak h2' pre fuel h1' h3, angLoop_streaks ht,
+      List.zipWith_cons_cons]
+
 end Epsie.Domain
